@@ -24,6 +24,7 @@ type c06Send struct {
 	OK        bool   `json:"ok"`
 	Emitted   int    `json:"emitted"`
 	Err       string `json:"err,omitempty"`
+	Buf       int    `json:"buf"` // the channel's buffer size (0: every inbound stream is a pure hand-off)
 }
 
 func (c *c06Send) Coq() string {
@@ -138,89 +139,95 @@ func serverStages() ([]*c06Send, error) {
 		{"failed", []lime.SessionEncryption{"none"}, []string{`{"state":"new","id":"unexpected"}`}, ""},
 		{"failed-after-established", []lime.SessionEncryption{"none"}, []string{newSes, "AUTH"}, "fail"},
 	}
-	for _, st := range stages {
-		cmem, smem := memconn.Pipe(0)
-		peer := &lineCounter{}
-		var sidMu sync.Mutex
-		sid := ""
-		// the raw client reads lines itself to learn the session id
-		go func() {
-			r := bufio.NewReader(cmem)
-			for {
-				line, err := r.ReadBytes('\n')
-				if err != nil {
-					return
-				}
-				peer.mu.Lock()
-				peer.lines++
-				if !bytes.Contains(line, []byte(`"state"`)) {
-					peer.data++
-				}
-				peer.mu.Unlock()
-				if bytes.Contains(line, []byte(`"state":"finished"`)) || bytes.Contains(line, []byte(`"state":"failed"`)) {
-					// a real client closes its side now (which also lets the server's receiver stop at once);
-					// the half-close keeps this reader able to see anything the server still writes
-					cmem.CloseWrite()
-				}
-				if i := bytes.Index(line, []byte(`"id":"`)); i >= 0 {
-					rest := line[i+6:]
-					if j := bytes.IndexByte(rest, '"'); j >= 0 {
-						sidMu.Lock()
-						if sid == "" {
-							sid = string(rest[:j])
+	for _, buf := range []int{4, 0} {
+		for _, st := range stages {
+			cmem, smem := memconn.Pipe(0)
+			peer := &lineCounter{}
+			var sidMu sync.Mutex
+			sid := ""
+			// the raw client reads lines itself to learn the session id
+			go func() {
+				r := bufio.NewReader(cmem)
+				for {
+					line, err := r.ReadBytes('\n')
+					if err != nil {
+						return
+					}
+					peer.mu.Lock()
+					peer.lines++
+					if !bytes.Contains(line, []byte(`"state"`)) {
+						peer.data++
+					}
+					peer.mu.Unlock()
+					if bytes.Contains(line, []byte(`"state":"finished"`)) || bytes.Contains(line, []byte(`"state":"failed"`)) {
+						// a real client closes its side now (which also lets the server's receiver stop at once);
+						// the half-close keeps this reader able to see anything the server still writes
+						cmem.CloseWrite()
+					}
+					if i := bytes.Index(line, []byte(`"id":"`)); i >= 0 {
+						rest := line[i+6:]
+						if j := bytes.IndexByte(rest, '"'); j >= 0 {
+							sidMu.Lock()
+							if sid == "" {
+								sid = string(rest[:j])
+							}
+							sidMu.Unlock()
 						}
-						sidMu.Unlock()
 					}
 				}
-			}
-		}()
-		sc := lime.NewServerChannel(lime.NewTCPTransportOverConn(smem, true, nil), 4, serverNode, nextSID())
-		done := make(chan error, 1)
-		ctx, cancel := context.WithTimeout(context.Background(), 5*time.Second)
-		go func() {
-			done <- sc.EstablishSession(ctx, []lime.SessionCompression{"none"}, st.enc,
-				[]lime.AuthenticationScheme{"guest"}, allowAll, registerAs(lime.Node{Identity: lime.Identity{Name: "cli", Domain: "verif.test"}, Instance: "i"}))
-		}()
-		returned := false
-		settle := func() {
-			waitUntil(300*time.Millisecond, func() bool {
-				if !returned {
-					select {
-					case <-done:
-						returned = true
-					default:
+			}()
+			sc := lime.NewServerChannel(lime.NewTCPTransportOverConn(smem, true, nil), buf, serverNode, nextSID())
+			done := make(chan error, 1)
+			ctx, cancel := context.WithTimeout(context.Background(), 5*time.Second)
+			go func() {
+				done <- sc.EstablishSession(ctx, []lime.SessionCompression{"none"}, st.enc,
+					[]lime.AuthenticationScheme{"guest"}, allowAll, registerAs(lime.Node{Identity: lime.Identity{Name: "cli", Domain: "verif.test"}, Instance: "i"}))
+			}()
+			returned := false
+			settle := func() {
+				waitUntil(300*time.Millisecond, func() bool {
+					if !returned {
+						select {
+						case <-done:
+							returned = true
+						default:
+						}
 					}
-				}
-				return returned || (smem.ReaderWaiting() && cmem.Pending() == 0)
-			})
-		}
-		settle()
-		for _, line := range st.script {
-			if line == "AUTH" {
-				sidMu.Lock()
-				s := sid
-				sidMu.Unlock()
-				line = fmt.Sprintf(`{"state":"authenticating","id":"%s","scheme":"guest","authentication":{},"from":"cli@verif.test/i"}`, s)
+					return returned || (smem.ReaderWaiting() && cmem.Pending() == 0)
+				})
 			}
-			_, _ = cmem.Write([]byte(line + "\n"))
 			settle()
+			for _, line := range st.script {
+				if line == "AUTH" {
+					sidMu.Lock()
+					s := sid
+					sidMu.Unlock()
+					line = fmt.Sprintf(`{"state":"authenticating","id":"%s","scheme":"guest","authentication":{},"from":"cli@verif.test/i"}`, s)
+				}
+				_, _ = cmem.Write([]byte(line + "\n"))
+				settle()
+			}
+			switch st.after {
+			case "finish":
+				fctx, fcancel := context.WithTimeout(context.Background(), time.Second)
+				_ = sc.FinishSession(fctx)
+				fcancel()
+			case "fail":
+				fctx, fcancel := context.WithTimeout(context.Background(), time.Second)
+				_ = sc.FailSession(fctx, &lime.Reason{Code: 1, Description: "scripted"})
+				fcancel()
+			}
+			time.Sleep(200 * time.Microsecond)
+			ops := tryOps("server", st.name, sc, peer, cmem)
+			for _, o := range ops {
+				o.Buf = buf
+			}
+			out = append(out, ops...)
+			cancel()
+			_ = cmem.Close()
+			_ = smem.Close()
+			_ = sc.Close()
 		}
-		switch st.after {
-		case "finish":
-			fctx, fcancel := context.WithTimeout(context.Background(), time.Second)
-			_ = sc.FinishSession(fctx)
-			fcancel()
-		case "fail":
-			fctx, fcancel := context.WithTimeout(context.Background(), time.Second)
-			_ = sc.FailSession(fctx, &lime.Reason{Code: 1, Description: "scripted"})
-			fcancel()
-		}
-		time.Sleep(200 * time.Microsecond)
-		out = append(out, tryOps("server", st.name, sc, peer, cmem)...)
-		cancel()
-		_ = cmem.Close()
-		_ = smem.Close()
-		_ = sc.Close()
 	}
 	return out, nil
 }
@@ -248,60 +255,66 @@ func clientStages() ([]*c06Send, error) {
 		{"failed-after-established", []string{authreq, est, `{"state":"failed","id":"S1","from":"postmaster@verif.test/srv","reason":{"code":1,"description":"no"}}`}, ""},
 		{"finished-by-server", []string{authreq, est, `{"state":"finished","id":"S1","from":"postmaster@verif.test/srv"}`}, ""},
 	}
-	for _, st := range stages {
-		cmem, smem := memconn.Pipe(0)
-		peer := &lineCounter{}
-		go peer.run(smem)
-		cc := lime.NewClientChannel(lime.NewTCPTransportOverConn(cmem, false, nil), 4)
-		done := make(chan error, 1)
-		ctx, cancel := context.WithTimeout(context.Background(), 5*time.Second)
-		go func() {
-			_, err := cc.EstablishSession(ctx, lime.NoneCompressionSelector, lime.NoneEncryptionSelector,
-				lime.Identity{Name: "cli", Domain: "verif.test"}, lime.GuestAuthenticator, "i")
-			done <- err
-		}()
-		returned := false
-		settle := func() {
-			waitUntil(300*time.Millisecond, func() bool {
-				if !returned {
+	for _, buf := range []int{4, 0} {
+		for _, st := range stages {
+			cmem, smem := memconn.Pipe(0)
+			peer := &lineCounter{}
+			go peer.run(smem)
+			cc := lime.NewClientChannel(lime.NewTCPTransportOverConn(cmem, false, nil), buf)
+			done := make(chan error, 1)
+			ctx, cancel := context.WithTimeout(context.Background(), 5*time.Second)
+			go func() {
+				_, err := cc.EstablishSession(ctx, lime.NoneCompressionSelector, lime.NoneEncryptionSelector,
+					lime.Identity{Name: "cli", Domain: "verif.test"}, lime.GuestAuthenticator, "i")
+				done <- err
+			}()
+			returned := false
+			settle := func() {
+				waitUntil(300*time.Millisecond, func() bool {
+					if !returned {
+						select {
+						case <-done:
+							returned = true
+						default:
+						}
+					}
+					return (returned || cmem.ReaderWaiting()) && smem.Pending() == 0
+				})
+			}
+			settle()
+			for _, line := range st.script {
+				_, _ = smem.Write([]byte(line + "\n"))
+				settle()
+			}
+			switch st.after {
+			case "finishing", "finished":
+				fdone := make(chan struct{})
+				go func() {
+					fctx, fcancel := context.WithTimeout(context.Background(), 2*time.Second)
+					_, _ = cc.FinishSession(fctx)
+					fcancel()
+					close(fdone)
+				}()
+				waitUntil(300*time.Millisecond, func() bool { peer.mu.Lock(); defer peer.mu.Unlock(); return peer.lines >= 3 })
+				if st.after == "finished" {
+					_, _ = smem.Write([]byte(`{"state":"finished","id":"S1","from":"postmaster@verif.test/srv"}` + "\n"))
 					select {
-					case <-done:
-						returned = true
-					default:
+					case <-fdone:
+					case <-time.After(7 * time.Second):
 					}
 				}
-				return (returned || cmem.ReaderWaiting()) && smem.Pending() == 0
-			})
-		}
-		settle()
-		for _, line := range st.script {
-			_, _ = smem.Write([]byte(line + "\n"))
-			settle()
-		}
-		switch st.after {
-		case "finishing", "finished":
-			fdone := make(chan struct{})
-			go func() {
-				fctx, fcancel := context.WithTimeout(context.Background(), 2*time.Second)
-				_, _ = cc.FinishSession(fctx)
-				fcancel()
-				close(fdone)
-			}()
-			waitUntil(300*time.Millisecond, func() bool { peer.mu.Lock(); defer peer.mu.Unlock(); return peer.lines >= 3 })
-			if st.after == "finished" {
-				_, _ = smem.Write([]byte(`{"state":"finished","id":"S1","from":"postmaster@verif.test/srv"}` + "\n"))
-				select {
-				case <-fdone:
-				case <-time.After(7 * time.Second):
-				}
 			}
+			time.Sleep(200 * time.Microsecond)
+			ops := tryOps("client", st.name, cc, peer, smem)
+			for _, o := range ops {
+				o.Buf = buf
+			}
+			out = append(out, ops...)
+			cancel()
+			_ = smem.Close()
+			_ = cmem.Close()
+			_ = cc.Close()
 		}
-		time.Sleep(200 * time.Microsecond)
-		out = append(out, tryOps("client", st.name, cc, peer, smem)...)
-		cancel()
-		_ = smem.Close()
-		_ = cmem.Close()
-		_ = cc.Close()
 	}
 	return out, nil
 }
@@ -309,7 +322,7 @@ func clientStages() ([]*c06Send, error) {
 func runC06(env *Env) error {
 	env.Header = hsHeader + "Corr.HsChecks Chan.Gate Corr.C06."
 	env.ShardSize = 40
-	env.Rule = "send side: each of SendMessage, SendNotification, SendRequestCommand, SendResponseCommand and ProcessCommand called on a real ServerChannel / ClientChannel held by a scripted raw peer at every stage (new, negotiating, authenticating, established, finishing, finished, failed, failed after established), recording the result and every byte the peer sees; receive side: the server script enumeration (data envelope, undecodable input and EOF at every position) against a real Server with catch-all handlers registered. Non-trivial: a send at a non-established stage, or a script containing a data envelope. Distinct by printed case."
+	env.Rule = "send side: each of SendMessage, SendNotification, SendRequestCommand, SendResponseCommand and ProcessCommand called on a real ServerChannel / ClientChannel held by a scripted raw peer at every stage (new, negotiating, authenticating, established, finishing, finished, failed, failed after established), with channel buffers of 4 and of 0, recording the result and every byte the peer sees; receive side: the server script enumeration (data envelope, undecodable input and EOF at every position) against a real Server with catch-all handlers registered. Non-trivial: a send at a non-established stage, or a script containing a data envelope. Distinct by printed case."
 	var rs struct {
 		Role  string `json:"role"`
 		Stage string `json:"stage"`
